@@ -125,3 +125,97 @@ def H(*xs):
 
 
 OPAQUE_H = opaque_rx(r"^rln::hashers::poseidon_hash$")
+
+
+def ac_normal(t):
+    """flatten associative-commutative field products/sums into sorted multisets (x*x*x*x*x == x^5 in any association)"""
+    if not isinstance(t, tuple) or not t:
+        return t
+    t = tuple(ac_normal(x) if isinstance(x, tuple) else x for x in t)
+    if t[0] in ("fmul", "fadd"):
+        items = []
+        for x in t[1:]:
+            if isinstance(x, tuple) and x and x[0] == t[0] + "*":
+                items.extend(x[1])
+            else:
+                items.append(x)
+        return (t[0] + "*", tuple(sorted(items, key=repr)))
+    return t
+
+
+DENY_EFFECTS = [r"thread_rng", r"OsRng", r"rand::random", r"SystemTime", r"Instant::now", r"^std::env::", r"thread::current",
+                r"^std::fs::", r"^std::net::", r"RandomState", r"Mutex", r"RwLock", r"RefCell", r"std::cell::Cell", r"Atomic",
+                r"std::process::", r"getrandom"]
+
+
+def reach(fb, roots, stop=None):
+    """A1: workspace functions and external callee names reachable from roots (resolved callees; closures of reached fns included)"""
+    seen, ext, work = set(), {}, list(roots)
+    statics = set()
+    while work:
+        p = work.pop()
+        if p in seen:
+            continue
+        it = fb.items.get(p)
+        if it is None:
+            continue
+        seen.add(p)
+        for c in fb.closures_of(p):
+            work.append(c.path)
+        bodies = [it.d] + list(it.d.get("promoted", []))
+        for body in bodies:
+            for b in body["blocks"]:
+                t = b["term"]
+                for s in b["stmts"]:
+                    for cst in consts_in(s):
+                        if "static" in cst:
+                            statics.add(cst["static"])
+                        if "closure" in cst:
+                            work.append(cst["closure"])
+                        if "fn" in cst and cst["fn"] in fb.items:
+                            work.append(cst["fn"])
+                if t["k"] == "call":
+                    for a in t["args"]:
+                        c = a.get("c")
+                        if c:
+                            if "static" in c:
+                                statics.add(c["static"])
+                            if "fn" in c and c["fn"] in fb.items:
+                                work.append(c["fn"])
+                    n = t.get("resolved") or t.get("callee")
+                    if n is None:
+                        continue
+                    if stop and stop(n):
+                        ext.setdefault(n, p)
+                        continue
+                    if n in fb.items:
+                        work.append(n)
+                    elif t.get("callee") in fb.items:
+                        work.append(t["callee"])
+                    else:
+                        ext.setdefault(n, p)
+    for sname in list(statics):
+        if sname in fb.items and sname not in seen:
+            # the initialiser of a lazy static is reachable too
+            more_seen, more_ext, more_st = reach(fb, [sname], stop)
+            seen |= more_seen
+            for k, v in more_ext.items():
+                ext.setdefault(k, v)
+            statics |= more_st
+    return seen, ext, statics
+
+
+def consts_in(stmt):
+    out = []
+
+    def walk(x):
+        if isinstance(x, dict):
+            if "c" in x and isinstance(x["c"], dict):
+                out.append(x["c"])
+            for v in x.values():
+                walk(v)
+        elif isinstance(x, list):
+            for v in x:
+                walk(v)
+    walk(stmt)
+    return out
